@@ -39,6 +39,47 @@ def wshape_of(case):
     return "+".join(kinds) if kinds else "empty"
 
 
+def starved_of_file_descriptors(ctx):
+    """on-disk mode with fewer file descriptors than chunk files: the command either fails (non-zero status) or writes
+    what it writes when nothing goes wrong (relational: the reference is the same command without the limit)"""
+    bindir = ctx.build_cmds(["obiuniq"])
+    d = ctx.path("fdlimit")
+    os.makedirs(d, exist_ok=True)
+    rng = ctx.rng
+    seqs = ["".join(rng.choice("acgt") for _ in range(60)) for _ in range(600)]
+    with open(os.path.join(d, "in.fa"), "w") as f:
+        for rep in range(5):
+            for i, q in enumerate(seqs):
+                f.write(">r%d_%d\n%s\n" % (rep, i, q))
+
+    def summary(out):
+        recs = {}
+        lines = out.decode().split("\n")
+        for a, b in zip(lines[0::2], lines[1::2]):
+            if a.startswith(">"):
+                j = a.find("{")
+                ann = json.loads(a[j:a.rindex("}") + 1]) if j >= 0 else {}
+                recs[b] = recs.get(b, 0) + int(ann.get("count", 1))
+        return recs
+    exe = os.path.join(bindir, "obiuniq")
+    for chunks, limit in ((100, 64), (400, 200)):
+        ref = ctx.run_many([{"argv": [exe, "--no-progressbar", "--chunk-count", str(chunks), "in.fa"], "cwd": d}], timeout=600)[0]
+        if ref["rc"] != 0:
+            raise vlib.Inconclusive("reference obiuniq run failed: " + ref["err"][-300:])
+        r = ctx.run_many([{"argv": ["/bin/bash", "-c", "ulimit -n %d; exec %s --no-progressbar --chunk-count %d in.fa" % (limit, exe, chunks)],
+                           "cwd": d}], timeout=600)[0]
+        ctx.replayed += 1
+        if r["timeout"]:
+            ctx.violation("C06.bin.fdlimit.hang", "chunks=%d/limit=%d" % (chunks, limit), "obiuniq --chunk-count %d under ulimit -n %d did not terminate" % (chunks, limit),
+                          {"chunks": chunks, "limit": limit})
+        elif r["rc"] == 0 and summary(r["out"]) != summary(ref["out"]):
+            got, want = summary(r["out"]), summary(ref["out"])
+            ctx.violation("C06.bin.fdlimit.records_lost", "chunks=%d/limit=%d" % (chunks, limit),
+                          "obiuniq --chunk-count %d under ulimit -n %d exits 0 with %d sequences (total count %d); without the limit: %d sequences (total %d)"
+                          % (chunks, limit, len(got), sum(got.values()), len(want), sum(want.values())), {"chunks": chunks, "limit": limit})
+        ctx.classes["bin/fdlimit/" + ("failed" if r["rc"] != 0 else "completed")] = ctx.classes.get("bin/fdlimit/" + ("failed" if r["rc"] != 0 else "completed"), 0) + 1
+
+
 def run_replay(ctx, name, cases, level, runs, procs=8, par=4, extra=(), timeout=2400):
     cf = ctx.path("cases_%s.ndjson" % name)
     rf = ctx.path("res_%s.ndjson" % name)
@@ -146,6 +187,7 @@ def main(ctx):
     multi = [c for c in allcases if len(c["in"]) >= 2]
     bin_cases = vlib.sample(ctx.rng, multi, 1500 if thorough else 160)
     run_replay(ctx, "bin", bin_cases, "bin", 2 if thorough else 1, procs=1, par=16, extra=["inprocess=1"])
+    starved_of_file_descriptors(ctx)
     law_cases = vlib.sample(ctx.rng, [c for c in multi if c["opt"][1] == 1], 600 if thorough else 60)
     run_replay(ctx, "law", law_cases, "law", 1, procs=1, par=16, extra=["inprocess=1"])
     # the weighted descriptor: every (shape class, option set) through the binaries, and the two-pass runs
